@@ -22,9 +22,9 @@ type Ty struct {
 	Elem *Ty
 }
 
-func N(name string) *Ty    { return &Ty{Kind: tyName, Name: name} }
-func Arr(e *Ty) *Ty        { return &Ty{Kind: tyArray, Elem: e} }
-func Post(e *Ty) *Ty       { return &Ty{Kind: tyPostfix, Elem: e} }
+func N(name string) *Ty       { return &Ty{Kind: tyName, Name: name} }
+func Arr(e *Ty) *Ty           { return &Ty{Kind: tyArray, Elem: e} }
+func Post(e *Ty) *Ty          { return &Ty{Kind: tyPostfix, Elem: e} }
 func Map(k string, v *Ty) *Ty { return &Ty{Kind: tyMap, Key: N(k), Elem: v} }
 
 func (t *Ty) String() string {
@@ -102,9 +102,9 @@ type Expr struct {
 	L, R *Expr
 }
 
-func Lit(text string) *Expr          { return &Expr{Op: "lit", Text: text} }
-func Ref(name string) *Expr          { return &Expr{Op: "ref", Text: name} }
-func Par(e *Expr) *Expr              { return &Expr{Op: "par", L: e} }
+func Lit(text string) *Expr           { return &Expr{Op: "lit", Text: text} }
+func Ref(name string) *Expr           { return &Expr{Op: "ref", Text: name} }
+func Par(e *Expr) *Expr               { return &Expr{Op: "par", L: e} }
 func Bin(op string, l, r *Expr) *Expr { return &Expr{Op: op, L: l, R: r} }
 
 func (e *Expr) String() string {
